@@ -110,7 +110,15 @@ func (v val) isZero() bool {
 	return false
 }
 
-// valuesOf: zero, boundary and ordinary values of a content type
+func manyU32(n int) []uint32 {
+	l := make([]uint32, n)
+	for i := range l {
+		l[i] = uint32(i * 7919)
+	}
+	return l
+}
+
+// valuesOf: zero, boundary and ordinary values of a content type (lengths above 255 included)
 func valuesOf(t int) []val {
 	u := func(xs ...uint64) (o []val) {
 		for _, x := range xs {
@@ -156,13 +164,13 @@ func valuesOf(t int) []val {
 		}
 		return o
 	case 11:
-		return []val{{T: 11, S: []byte{}}, {T: 11, S: []byte("a")}, {T: 11, S: []byte("hello world")}, {T: 11, S: []byte{0}}, {T: 11, S: []byte("\xc3\xa9\x00z")}}
+		return []val{{T: 11, S: []byte{}}, {T: 11, S: []byte("a")}, {T: 11, S: []byte("hello world")}, {T: 11, S: []byte{0}}, {T: 11, S: []byte("\xc3\xa9\x00z")}, {T: 11, S: bytes.Repeat([]byte("0123456789"), 30)}}
 	case 12:
 		return []val{{T: 12, B: false}, {T: 12, B: true}}
 	case 13:
-		return []val{{T: 13, S: []byte{}}, {T: 13, S: []byte{0}}, {T: 13, S: []byte{0xC7, 0x00, 0x80}}, {T: 13, S: []byte{1, 2, 3, 0, 255}}}
+		return []val{{T: 13, S: []byte{}}, {T: 13, S: []byte{0}}, {T: 13, S: []byte{0xC7, 0x00, 0x80}}, {T: 13, S: []byte{1, 2, 3, 0, 255}}, {T: 13, S: bytes.Repeat([]byte{0, 200}, 150)}}
 	case 14:
-		return []val{{T: 14, L: []uint32{}}, {T: 14, L: []uint32{0}}, {T: 14, L: []uint32{5, 1, math.MaxUint32}}}
+		return []val{{T: 14, L: []uint32{}}, {T: 14, L: []uint32{0}}, {T: 14, L: []uint32{5, 1, math.MaxUint32}}, {T: 14, L: manyU32(70)}}
 	}
 	return nil
 }
@@ -733,6 +741,9 @@ func genPlan(rng *common.Rng, idx int, tier string) *plan {
 				}
 			}
 			p.segs[sg] = append(p.segs[sg], seq...)
+			if rng.Chance(8) {
+				p.segs[sg] = append(p.segs[sg], hop{Kind: "compact", K: k}) // CompactSwamp: rewrites the file from the live index
+			}
 		}
 		written = append(written, touched...)
 		p.ops = append(p.ops, p.segs[sg]...)
@@ -844,6 +855,12 @@ func doOp(a *c30.API, p *plan, o hop) error {
 		err = a.Delete(p.swamp, []string{key, key})
 	case "delpair":
 		err = a.Delete(p.swamp, []string{key, keyName(int(o.By))})
+	case "compact":
+		c, cancel := context.WithTimeout(context.Background(), 20*time.Second)
+		_, cerr := a.S.GW.CompactSwamp(c, &hydrapb.CompactSwampRequest{IslandID: a.Island, SwampName: p.swamp})
+		cancel()
+		_ = cerr   // nothing on disk yet / missing swamp: acceptable
+		return nil // no record is touched: not an operation of the model
 	case "shift":
 		c, cancel := context.WithTimeout(context.Background(), 20*time.Second)
 		_, serr := a.S.GW.ShiftByKeys(c, &hydrapb.ShiftByKeysRequest{IslandID: a.Island, SwampName: p.swamp, Keys: []string{key}})
